@@ -598,6 +598,13 @@ func (f *effFrame) call(c *ast.CallExpr) {
 				if fn.Name() == "Write" || fn.Name() == "Reset" || fn.Name() == "Sum" {
 					f.markWritten(f.roots(recv, false), c.Pos(), "hash state")
 				}
+			case "Encrypt", "Decrypt", "CryptBlocks", "XORKeyStream":
+				// crypto/cipher Block/BlockMode/Stream: dst (first argument) is written, the cipher object is not
+				// (the stored cipher.Block is this package's own immutable cipher type)
+				if len(c.Args) > 0 {
+					f.markWritten(f.roots(c.Args[0], false), c.Pos(), "dst of "+fn.Name())
+				}
+			case "NonceSize", "Overhead":
 			default:
 				writeAll("passed to interface method " + fn.Name())
 			}
